@@ -113,6 +113,16 @@ where
 
 /// Modular inversion for 64-bit moduli.
 pub fn inv_mod64(n: u64, p: u64) -> Option<u64> {
+    if (n | p) >> 63 != 0 {
+        // Operands do not fit in i64.
+        let e = Integer::extended_gcd(&(n as i128), &(p as i128));
+        if e.gcd != 1 {
+            return None;
+        }
+        let x = if e.x < 0 { e.x + p as i128 } else { e.x };
+        assert!(x >= 0);
+        return Some((x as u128 % p as u128) as u64);
+    }
     let e = Integer::extended_gcd(&(n as i64), &(p as i64));
     if e.gcd == 1 {
         let x = if e.x < 0 { e.x + p as i64 } else { e.x };
